@@ -13,7 +13,8 @@
 
   Status: every clause is proved at full strength EXCEPT `conditional`, where the code deviates from the specification
   (finding F11, open): `conditional_den` states what the code computes, `conditional_den_spec_partial` the specification
-  under the hypothesis that excludes the deviation, `conditional_collects_bound_range` / `_subscript` exhibit it.
+  under the hypothesis that excludes the deviation, `conditional_den_probability` the full specification for the
+  `Probability` overload, `conditional_collects_bound_range` / `_subscript` exhibit the deviation.
 -/
 import Y0.Lemmas.SemFrac
 
@@ -102,6 +103,29 @@ theorem conditional_den_spec_partial (e c : Expr) (r : List Var) (h : e.conditio
     intro x
     rw [hm, hsame, hmem]
   exact congrFun (sumVars_perm env.card hperm _) σ
+
+/-- **`Probability.conditional` meets the specification**: for a leaf `P(C | Pa)` whose event variables are not
+`Intervention` objects, `p.conditional(ranges)` denotes `p / Σ_{(C ∪ Pa) ∖ ranges} p` (subscripts are not summed over) -/
+theorem conditional_den_probability {pop : Option Var} {ch pa : List Var} {c : Expr} (r : List Var)
+    (hiv : ∀ v ∈ ch ++ pa, v.isIv = false) (h : (Expr.prob pop ch pa).conditional r = .ok c) (σ : Val)
+    (xs : List Name) (hxs : xs.Nodup)
+    (hmem : ∀ x, x ∈ xs ↔ x ∈ (ch ++ pa).map (·.name) ∧ x ∉ r.map (·.name)) :
+    den env σ' c σ = den env σ' (.prob pop ch pa) σ / sumVars env.card xs (fun τ => den env σ' (.prob pop ch pa) τ) σ := by
+  apply conditional_den_spec_partial _ c r h σ xs hxs (by simpa [freeEventNames] using hmem)
+  intro x
+  simp only [freeEventNames, Expr.conditionalComplement, Expr.iterVars, List.mem_map, mem_diff', mem_dedup',
+    mem_upgradeOrdering, List.mem_filter, List.mem_flatMap, Var.iterVars, List.mem_cons, Bool.not_eq_true']
+  constructor
+  · rintro ⟨w, ⟨⟨v, ⟨⟨u, hu, hvu⟩, hviv⟩, rfl⟩, hnr⟩, rfl⟩
+    rcases hvu with rfl | ⟨i, _, rfl⟩
+    · refine ⟨⟨v, hu, rfl⟩, ?_⟩
+      rintro ⟨r0, hr0, hn⟩
+      exact hnr ⟨r0, hr0, Var.base_eq_iff.mpr hn⟩
+    · simp [Iv.toVar] at hviv
+  · rintro ⟨⟨u, hu, rfl⟩, hnr⟩
+    refine ⟨u.base, ⟨⟨u, ⟨⟨u, hu, Or.inl rfl⟩, hiv u hu⟩, rfl⟩, ?_⟩, rfl⟩
+    rintro ⟨r0, hr0, hb⟩
+    exact hnr ⟨r0, hr0, Var.base_eq_iff.mp hb⟩
 
 /-- F11 exhibited on the model: for `Sum[A](P(C))` (A=0, C=2) the code also normalises over the bound `A` -/
 theorem conditional_collects_bound_range :
